@@ -42,7 +42,7 @@ namespace
   template<typename DT, int BS>
   void unitb_vectors(verif::Ctx& c, const std::string& kname)
   {
-    const int N = c.thorough ? 4 : 3;
+    const int N = c.thorough ? 5 : 4;
     for(int n = 0; n <= N; ++n) for(unsigned S = 0; S < (1u << n); ++S) for(int order = 0; order < NUM_ORD; ++order)
     for(int ign = 0; ign < 2; ++ign) for(unsigned nm = 0; nm < (1u << BS); ++nm) for(int op = 0; op < 4; ++op)
     {
@@ -70,7 +70,7 @@ namespace
   void unitb_bcsr(verif::Ctx& c, const std::string& kname)
   {
     typedef SparseMatrixBCSR<DT, Index, BS, BW> Mat;
-    const int NM = c.thorough ? 3 : 2;
+    const int NM = 3; (void)c.thorough;
     for(int n = 1; n <= NM; ++n) for(int m = 1; m <= NM; ++m)
     for(unsigned pat = 0; pat < (1u << (n * m)); ++pat) for(unsigned S = 0; S < (1u << n); ++S)
     for(int ign = 0; ign < 2; ++ign) for(unsigned nm = 0; nm < (1u << BS); ++nm) for(int mop = 0; mop < 3; ++mop)
@@ -159,18 +159,46 @@ namespace
       c.count("matrix_filter_applications");
       if(S != 0 && pat != 0) c.nontrivial(verif::Hash().str(kname).str("special").pod(n).pod(pat).pod(S).pod(variant).get());
     }
-    // entry-free matrices (rows, cols ctor: no arrays at all): filtering has nothing to change
-    for(int n = 1; n <= 2; ++n) for(unsigned S = 0; S < (1u << n); ++S) for(int mop = 0; mop < 2; ++mop)
+    // entry-free matrices (rows, cols ctor: no arrays at all): filtering has nothing to change. Each (filter, operation,
+    // format) combination runs in a forked child and has its own key (known-finding class "entry-free operand").
+    static const char* ef_name[7] = {
+      "UnitFilter.filter_mat entry-free CSR(rows,cols) matrix",
+      "UnitFilter.filter_offdiag_row_mat entry-free CSR(rows,cols) matrix",
+      "UnitFilter.filter_weak_matrix_rows entry-free CSR(rows,cols) matrix",
+      "UnitFilter.filter_offdiag_row_mat entry-free BCSR<1,2>(rows,cols) matrix",
+      "UnitFilterBlocked.filter_mat entry-free BCSR(rows,cols) matrix",
+      "UnitFilterBlocked.filter_offdiag_row_mat entry-free BCSR(rows,cols) matrix",
+      "UnitFilterBlocked.filter_weak_matrix_rows entry-free BCSR(rows,cols) matrix"};
+    for(int n = 1; n <= 2; ++n) for(unsigned S = 0; S < (1u << n); ++S) for(int ef = 0; ef < 7; ++ef)
     {
       if(!c.want()) continue;
-      c.desc([&]{ return kname + " " + mop_name[mop] + " entry-free CSR(" + std::to_string(n) + "," + std::to_string(n) + ") rows=" + set_name(S, n); });
+      c.desc([&]{ return std::string(ef_name[ef]) + " (" + std::to_string(n) + "," + std::to_string(n) + ") constrained rows=" + set_name(S, n); });
       int sig = c.run_forked([&]{
-        RUnit ref; auto f = make_unit<DT>(n, S, ORD_ASC, ref);
-        SparseMatrixCSR<DT, Index> a{Index(n), Index(n)};
-        if(mop == M_MAT) f.filter_mat(a); else f.filter_offdiag_row_mat(a);
-        if(a.used_elements() != 0 || a.rows() != Index(n)) _exit(9);
+        RUnit ref; RUnitB refb;
+        auto f = make_unit<DT>(n, S, ORD_ASC, ref);
+        auto fb = make_unitb<DT, 2>(n, S, ORD_ASC, false, 0, refb);
+        bool ok = true;
+        if(ef <= 2)
+        {
+          SparseMatrixCSR<DT, Index> a{Index(n), Index(n)}, m{Index(n), Index(n)};
+          if(ef == 0) f.filter_mat(a); else if(ef == 1) f.filter_offdiag_row_mat(a); else f.filter_weak_matrix_rows(a, m);
+          ok = (a.used_elements() == 0 && a.rows() == Index(n));
+        }
+        else if(ef == 3)
+        {
+          SparseMatrixBCSR<DT, Index, 1, 2> a{Index(n), Index(n)};
+          f.filter_offdiag_row_mat(a);
+          ok = (a.used_elements() == 0);
+        }
+        else
+        {
+          SparseMatrixBCSR<DT, Index, 2, 2> a{Index(n), Index(n)}, m{Index(n), Index(n)};
+          if(ef == 4) fb.filter_mat(a); else if(ef == 5) fb.filter_offdiag_row_mat(a); else fb.filter_weak_matrix_rows(a, m);
+          ok = (a.used_elements() == 0);
+        }
+        if(!ok) _exit(9);
       });
-      c.check(sig == 0, "UnitFilter." + std::string(mop_name[mop]) + " entry-free CSR(rows,cols) matrix: null row pointer dereferenced", [&]{ return "filtering a matrix without arrays died with signal/exit " + std::to_string(sig); });
+      c.check(sig == 0, std::string(ef_name[ef]) + ": null row pointer dereferenced", [&]{ return "filtering a matrix without arrays died with signal/exit " + std::to_string(sig); });
       c.outcome(sig == 0 ? "entry-free matrix ok" : "entry-free matrix crash");
     }
   }
